@@ -323,6 +323,29 @@ def _e1_jobs(focus, tier, quick_h=10, quick_steps=80, tho_h=400, tho_steps=120):
     return js
 
 
+def _e2_job(focus, tier, name="crash-sweep", **kw):
+    a = dict(cases=q(tier, 2, 8), rounds=q(tier, 10, 14), points=q(tier, 40, 400), faults=q(tier, 16, 150),
+             second=q(tier, 3, 12))
+    a.update(kw)
+    j = job(name, "e2", shards=16, timeout=3000, focus=focus, **a)
+    j["needs_shim"] = True
+    return j
+
+
+E2_RULE = ("crash case = one scripted KeyValueStore history (4-16 keys, puts/deletes/batches of 2-5 distinct keys, "
+           "runs of 1-3 flushes, 2-6 compaction steps, verifier passes, clean reopens, trailing unflushed writes; "
+           "memtable 1/256/2048 B, 4 KiB files, L0 thresholds 1-2 / 4-12, manifest rollover ratio 1/2/8) executed by "
+           "a child process under the LD_PRELOAD shim, which acknowledges every client call to a file outside the "
+           "store. The child is killed before its n-th watched call (mkdir/create/write/fsync/fdatasync/link/rename/"
+           "unlink/ftruncate under the store root), the image is left as is (model a) or every file is cut back to "
+           "its last synced length (model b), and a fresh un-shimmed process opens it, reads every key and a full "
+           "scan, re-checks the manifest ledger, reopens again, writes, flushes and compacts. Verdict: reads == "
+           "apply(acknowledged prefix) or == apply(prefix + the whole in-flight call); scan agrees; second reopen "
+           "and post-recovery maintenance change nothing. Some images are crashed a second time inside recovery. "
+           "fault case = the n-th call fails once with EIO or ENOSPC; the child stops at the first error it is told "
+           "of; the same oracle judges the directory it leaves. ")
+
+
 def _e1(prop, technique, level_text, rule_tail, floors, quick_h=10):
     REGISTRY[prop] = {
         "level": "exploration",
@@ -335,7 +358,8 @@ def _e1(prop, technique, level_text, rule_tail, floors, quick_h=10):
         "rule": E1_RULE + rule_tail,
         "assumptions": ["ingested files carry timestamps above everything ingested before (tree mode)",
                         "a batch that names a key twice applies its last entry"],
-        "jobs": (lambda p, qh: (lambda tier: _e1_jobs(p, tier, quick_h=qh)))(prop, quick_h),
+        "jobs": (lambda p, qh: (lambda tier: _e1_jobs(p, tier, quick_h=qh) + (
+            [_e2_job(p, tier, name="crash-images", faults=0, second=0)] if p in ("C04", "C08") else [])))(prop, quick_h),
         "floors": floors,
     }
 
@@ -387,3 +411,29 @@ _e1("C08",
     lambda tier: {"distinct_nontrivial": 100, "c08.ssts_left_sst_dir": 500, "c08.logs_left_root": 300,
                   "c08.trash_entries_unlinked": 200, "c08.reopens_after_verifier_pass": 30},
     quick_h=10)
+
+
+# ------------------------------------------------------------------------------------------- C02
+REGISTRY["C02"] = {
+    "level": "fault_enumeration",
+    "technique": "runtime fault injection with a recovery oracle: a scripted store history runs in a child under an LD_PRELOAD system-call shim and is killed before each (quick: a spread of) watched mutating call under two persistence models, or has one call fail with EIO/ENOSPC; a fresh process reopens the image and its reads are compared with the acknowledged prefix (all-or-nothing for the in-flight call)",
+    "level_text": ("Fault enumeration over the watched calls of the scripted histories: quick sweeps an even spread plus "
+                   "random points, thorough up to 400 points per history (all of them for most), each under models a "
+                   "and b, plus single EIO/ENOSPC injections and second crashes inside recovery. Histories and the "
+                   "calls they issue are sampled; crash points the scripts never reach are not covered."),
+    "level_note": ("Trusted: the shim sees every mutating libc call under the store root (non-zero counts, exit code 77 at "
+                   "the chosen call); the acknowledgement file is written only after the client call returned; "
+                   "directory-entry durability is outside the two models; flush/compaction loops are single-stepped "
+                   "by the hooks so the child is single-threaded and its call sequence repeatable."),
+    "rule": E2_RULE + ("Non-trivial = crash image / fault run of a history with flushes and compactions and >50 watched "
+                       "calls; distinct = hash of (history, call number, model or errno)."),
+    "assumptions": ["an operation the caller was told failed may or may not be present after reopen, but never partially",
+                    "directory entries persist at the call (no model of lost renames/links)"],
+    "exhaustive": lambda tier, counters: False,
+    "jobs": lambda tier: [_e2_job("C02", tier)],
+    "floors": lambda tier: {"distinct_nontrivial": 1000, "crash.images_model_a": 800, "crash.images_model_b": 800,
+                            "crash.images_with_unsynced_bytes_dropped": 100, "crash.images_with_write_in_flight": 100,
+                            "crash.points.flush": 200, "crash.points.verify": 100, "crash.points.write": 100,
+                            "crash.second_crashes_inside_recovery": 50, "fault.surfaced_as_error": 100,
+                            "recoveries.matched_acknowledged_prefix": 1500},
+}
